@@ -185,3 +185,29 @@ def length_terms(v: V, depth=3):
         for x in v.fields.values():
             out += length_terms(x, depth)
     return out
+
+
+def length_constraints(v: V, B: int, depth=4):
+    """size bounds for a shrunk counterexample: every list reachable through indices < B has length <= B"""
+    out = []
+    if depth < 0:
+        return out
+    if isinstance(v, Lst) and not v.concrete:
+        out.append(v.n <= B)
+        for i in range(B):
+            try:
+                out += length_constraints(v.at(z3.IntVal(i)), B, depth - 1)
+            except Exception:
+                break
+    elif isinstance(v, Lst):
+        for x in v.items:
+            out += length_constraints(x, B, depth - 1)
+    elif isinstance(v, Opt):
+        out += length_constraints(v.val, B, depth)
+    elif isinstance(v, Tup):
+        for x in v.items:
+            out += length_constraints(x, B, depth - 1)
+    elif isinstance(v, Obj):
+        for x in v.fields.values():
+            out += length_constraints(x, B, depth - 1)
+    return out
